@@ -19,10 +19,8 @@ func (msg *MsgUpdateDenomParam) Type() string {
 }
 
 func (msg *MsgUpdateDenomParam) GetSigners() []sdk.AccAddress {
-	creator, err := sdk.AccAddressFromBech32(msg.Authority)
-	if err != nil {
-		panic(err)
-	}
+	// no panic on a malformed address: x/authz and the ICA host ask a message for its signers before validating it
+	creator, _ := sdk.AccAddressFromBech32(msg.Authority)
 	return []sdk.AccAddress{creator}
 }
 
